@@ -314,6 +314,8 @@ func c11(c *an.Check) {
 			})
 			return typeOK && an.ResultCallTo(s.RetVal(at.(*ssa.Return), 0), an.R("crypto", "", "UnmarshalPrivateKey")) != nil
 		}}}})
+	// ---- the generated codec of package crypto (the protobuf wrappers decode through it)
+	pbCodecSanity(c, func(rel string) bool { return rel == "crypto" })
 	// ---- textual forms (base58 / PEM strings): a key or an error, never neither for non-empty input
 	confparseKeyGates(c)
 	// ---- PANIC
